@@ -1,5 +1,8 @@
 use vh::util::Args;
 
+#[global_allocator]
+static GLOBAL: vh::alloc::Counting = vh::alloc::Counting;
+
 fn main() {
     let argv: Vec<String> = std::env::args().collect();
     if argv.len() < 2 {
@@ -21,6 +24,8 @@ fn main() {
         "hllv-record" => vh::fam_hllfmt::record(&args),
         "ext-record" => vh::fam_ext::record(&args),
         "size-record" => vh::fam_ext::record_sizes(&args),
+        "c14-worker" => vh::fam_c14::worker(&args),
+        "c14-record" => vh::fam_c14::record(&args),
         "hllu-record" => vh::fam_hll::record_union(&args),
         c => {
             eprintln!("unknown command {c}");
